@@ -452,6 +452,8 @@ class Peg(object):
         k = p.kind
         if k in ("map", "try_map", "context", "take", "value", "void", "cut_err"):
             return self.den(p.args[0])
+        if k == "verify_map":
+            raise Inconclusive("verify_map() is not regular-transparent (its function may reject any text)")
         if k == "verify":
             # M' = { u#v in M : pred(u) },  F' = F  u  { uv : u#v in M, not pred(u) }   with pred regular (verifyre.py)
             R = self.verify_langs.get(id(p))
@@ -693,7 +695,7 @@ def eval_peg(g, classes, p, w, i):
             if e is None or e == j:
                 return None
             j = e
-    if k == "verify":
+    if k in ("verify", "verify_map"):
         j = eval_peg(g, classes, p.args[0], w, i)
         if j is None:
             return None
@@ -781,7 +783,7 @@ def eval_peg_trace(g, classes, p, w, i, watch):
             if e is None or e[0] == j:
                 return None
             j, ev = e[0], ev + e[1]
-    if k == "verify":
+    if k in ("verify", "verify_map"):
         r = eval_peg_trace(g, classes, p.args[0], w, i, watch)
         if r is None:
             return None
